@@ -174,7 +174,7 @@ fn builder(cfg: &prog::Cfg) -> loom::model::Builder {
     b.max_threads = cfg.max_threads;
     b.max_branches = cfg.max_branches;
     b.max_permutations = cfg.max_perm;
-    b.max_duration = None;
+    b.max_duration = cfg.max_dur.map(std::time::Duration::from_millis);
     b.preemption_bound = cfg.bound;
     b.checkpoint_file = None;
     b.checkpoint_interval = cfg.interval;
